@@ -25,6 +25,7 @@ DEEP = ('wait_async', 'cont_async', 'out_async', 'wait2')  # thorough: K=3 exhau
 
 def gen_cases(tier, seed):
     progs = {k: (v, False) for k, v in programs.basic_programs().items()}
+    progs.update({k: (v, False) for k, v in programs.awkward_programs().items()})
     S = programs.step
     progs['req_missing'] = ({'steps': [S(['cont', [], {}], yields=1), S(['value', 3], yields=1)]}, True)
     progs['req_ok'] = ({'steps': [S(['cont', [], {}], yields=1, fx=[(0, ['out', 'req', 5])]), S(['stop', 4, True], sync=True)]}, True)
@@ -52,10 +53,15 @@ def gen_cases(tier, seed):
         for j, plan in enumerate([[]] + list(plans.all_placements(n, [['pause', 'p'], ['kill', 'k'], ['fail', 'f']], 1))):
             yield {'name': name, 'program': prog, 'plan': plans.uniq(plan, 'r%d' % j), 'drain': True, 'probe': False,
                    'barrage': False, 'listener': 'raising', 'req_output': req}
+        # a process recreated from a checkpoint whose future is cancelled (must end KILLED with every view agreeing, like a fresh one)
+        for s0 in range(0, n + 1):
+            for plan in ([{'at': s0, 'act': ['cancel_future']}], [{'at': s0, 'act': ['pause', 'p']}, {'at': 'q', 'act': ['cancel_future']}]):
+                yield {'name': name, 'program': prog, 'plan': plans.uniq(plan, 'c%d' % s0), 'drain': True, 'probe': False,
+                       'barrage': False, 'listener': True, 'req_output': req, 'recreate': 'created'}
         # the same listener registered twice (and another one registered twice, then removed)
         for j, plan in enumerate([[]] + list(plans.all_placements(n, [['pause', 'p'], ['kill', 'k'], ['fail', 'f']], 1))):
             yield {'name': name, 'program': prog, 'plan': plans.uniq(plan, 't%d' % j), 'drain': True, 'probe': False,
-                   'barrage': False, 'listener': 'twice', 'req_output': req}
+                   'barrage': False, 'listener': 'twice', 'req_output': req, 'cleanup_chain': True}
         for i, plan in enumerate(itertools.chain(plist, deep)):
             yield {'name': name, 'program': prog, 'plan': plans.uniq(plan, 'q%d' % i), 'drain': True, 'probe': False,
                           'barrage': False, 'listener': True, 'req_output': req}
@@ -82,7 +88,7 @@ def run_case(case):
                 obs['kill_in_step'] += 1
             if a['via'].startswith('listener'):
                 obs['kill_from_listener'] += 1
-    res = {'viol': viol, 'obs': obs, 'inconclusive': rec['inconclusive'], 'key': [case['name'], case['plan'], case.get('listener')],
+    res = {'viol': viol, 'obs': obs, 'inconclusive': rec['inconclusive'], 'key': [case['name'], case['plan'], case.get('listener'), case.get('recreate')],
            'nontrivial': bool(fin and fin['terminated'])}
     res['sample'] = {'program': case['name'], 'plan': case['plan'], 'final_views': fin, 'task': rec['task']}
     return res
